@@ -172,6 +172,8 @@ def check_tree(ctx, case):
             return ctx.fail(("clone_from_root-raised",) + E.exc_site(e)[:1], case, {"node": E.text_of(n), "path": path, "error": repr(e)[:200]})
         ctx.count("clone_from_root_calls")
         det = {"node": E.text_of(n), "path": path}
+        if c is None or not hasattr(c, "parent"):
+            return ctx.fail(("clone_from_root-returned-no-node",), case, det)
         croot = c
         hops = 0
         while croot.parent is not None and hops < 10000:
@@ -192,9 +194,9 @@ def check_tree(ctx, case):
         if A.idsig(root) != before:
             return ctx.fail(("clone_from_root-modified-original",), case, det)
         for m in nodes:
-            if m.cloned_node is not None or m.cloned_target not in (None, ""):
-                if m.cloned_node is not None or m.cloned_target:
-                    return ctx.fail(("clone_from_root-scratch-not-reset",), case, det)
+            # scratch fields of the current implementation, if it still has them
+            if getattr(m, "cloned_node", None) is not None or getattr(m, "cloned_target", None):
+                return ctx.fail(("clone_from_root-scratch-not-reset",), case, det)
 
 
 def replay(ctx, case):
